@@ -144,7 +144,8 @@ type c12run struct {
 	nCompact             int
 	nConflict            int // compactions whose inputs held >= 2 versions of a key or a deletion marker
 	nRetired             int
-	kinds                map[string]int // executed tasks by selection rule
+	kinds                map[string]int      // executed tasks by selection rule
+	cache                map[string]*c12file // every table file ever seen, by name (the running storage manager keeps reading files a compaction has deleted)
 	reopenedAfterCompact bool
 }
 
@@ -156,7 +157,7 @@ func (r *c12run) fail(class, msg string) {
 	}
 	if len(r.fails) == 0 {
 		r.out("ORACLE FAIL " + msg)
-	} else if len(r.fails) < 6 {
+	} else if len(r.fails) < 6 || class == "" {
 		r.out("NOTE also: " + msg)
 	}
 	r.fails = append(r.fails, msg)
@@ -219,7 +220,28 @@ func (r *c12run) dump(print bool) []*c12file {
 		}
 	}
 	r.files = fs
+	if r.cache == nil {
+		r.cache = map[string]*c12file{}
+	}
+	for _, f := range fs {
+		r.cache[f.name] = f
+	}
 	return fs
+}
+
+// managerView is the list of tables the running storage manager reads, in its order (Get scans
+// it from the last to the first): the directory as loaded at the last open plus the tables
+// flushed since — compactions are not reflected until the next open.
+func (r *c12run) managerView() []*c12file {
+	var v []*c12file
+	for _, p := range r.e.VerifStorage().GetSSTables() {
+		f := r.cache[filepath.Base(p)]
+		if f == nil {
+			return r.files
+		}
+		v = append(v, f)
+	}
+	return v
 }
 
 func c12fileNames(fs []*c12file) map[string]*c12file {
@@ -475,13 +497,14 @@ func (r *c12run) checkGet(k []byte, v []byte, err error, when string) {
 	// which file does the storage manager consult first after a reopen (last in name order)?
 	var first, newest *c12file
 	var firstE *c12entry
-	for i := len(r.files) - 1; i >= 0; i-- {
-		if e := r.files[i].find(k); e != nil {
+	view := r.managerView()
+	for i := len(view) - 1; i >= 0; i-- {
+		if e := view[i].find(k); e != nil {
 			if first == nil {
-				first, firstE = r.files[i], e
+				first, firstE = view[i], e
 			}
 			if e.stamp == st && newest == nil {
-				newest = r.files[i]
+				newest = view[i]
 			}
 		}
 	}
@@ -577,7 +600,40 @@ func (r *c12run) reopen(retire bool, interval int64) bool {
 	return true
 }
 
+// c12wellFormed: a shrinking step may cut a batch from its lines; such a candidate is not a
+// failing input.
+func c12wellFormed(c *Case) bool {
+	arity := map[string]int{"put": 3, "del": 2, "get": 2, "flush": 1, "full": 1, "trigger": 1, "range": 3,
+		"reopen": 1, "retire": 1, "auto": 1, "files": 1, "batch": 2, "commit": 2}
+	for i := 0; i < len(c.Lines); i++ {
+		l := c.Lines[i]
+		if n, ok := arity[l[0]]; !ok || len(l) != n {
+			return false
+		}
+		if l[0] == "batch" || l[0] == "commit" {
+			n, err := strconv.Atoi(l[1])
+			if err != nil || n < 0 || i+n >= len(c.Lines) {
+				return false
+			}
+			for j := 1; j <= n; j++ {
+				s := c.Lines[i+j]
+				if !(s[0] == "p" && len(s) == 3) && !(s[0] == "d" && len(s) == 2) {
+					return false
+				}
+			}
+			i += n
+		}
+	}
+	return true
+}
+
 func runC12(c *Case, out func(string)) {
+	if !c12wellFormed(c) {
+		out("NOTE malformed case (not an input)")
+		out("ORACLE ok")
+		out("META ops=0 nontrivial=0")
+		return
+	}
 	dir := tmpDir("c12-")
 	defer os.RemoveAll(dir)
 	r := &c12run{dir: dir, out: out, ref: map[string]int{}, seqStamp: map[string]int{}, ghost: map[string][]int{}, damage: map[string]string{}}
